@@ -15,8 +15,9 @@ use std::{
 };
 
 use compio_buf::{BufResult, IntoInner};
-use compio_driver::{DriverType, ProactorBuilder, SharedFd, op::{Asyncify, Read}};
-use compio_runtime::{CancelToken, FutureExt, Runtime};
+use compio_driver::{DriverType, ProactorBuilder, SharedFd, op::{AcceptMulti, Asyncify, Read}};
+use futures_util::StreamExt as _;
+use compio_runtime::{CancelToken, FutureExt, Runtime, StreamExt as _};
 use hcore::out::{Report, panic_msg};
 use hdrv::{rec, tbuf::TBuf};
 use rand::{RngExt, SeedableRng, rngs::StdRng};
@@ -37,6 +38,7 @@ enum Kind {
     Dropped,   // read in a task whose handle is dropped
     Blocking,  // thread-pool job
     InFlight,  // read never fed, still pending when the runtime goes away
+    Multi,     // multishot accept stream: two connections arrive in a burst, then the stream is cancelled
 }
 
 #[derive(Debug, Clone)]
@@ -56,12 +58,13 @@ fn run_one(run: u64, rng: &mut StdRng, rep: &mut Report, trace_out: &mut Vec<Str
     let cap = *[1u32, 2, 4, 1024].get(rng.random_range(0..4usize)).unwrap();
     let n = rng.random_range(3..7usize);
     let kinds: Vec<Kind> = (0..n)
-        .map(|_| match rng.random_range(0..6u8) {
+        .map(|_| match rng.random_range(0..7u8) {
             0 => Kind::Plain,
             1 => Kind::Timeout,
             2 => Kind::Token,
             3 => Kind::Dropped,
             4 => Kind::Blocking,
+            5 => Kind::Multi,
             _ => Kind::InFlight,
         })
         .collect();
@@ -90,16 +93,27 @@ fn run_one(run: u64, rng: &mut StdRng, rep: &mut Report, trace_out: &mut Vec<Str
             let mut handles = vec![];
             let mut tokens: Vec<Option<CancelToken>> = vec![];
             let shared_token = CancelToken::new();
+            let paths: Rc<RefCell<Vec<Option<std::path::PathBuf>>>> = Rc::new(RefCell::new(vec![None; kinds2.len()]));
+            let accepted: Rc<RefCell<Vec<usize>>> = Rc::new(RefCell::new(vec![0; kinds2.len()]));
             let mut shared_fired = false;
+            let mut clients: Vec<std::os::unix::net::UnixStream> = vec![];
             for (i, k) in kinds2.iter().enumerate() {
                 let (r, w) = pipe_nonblock();
                 writers.push(Some(w));
                 let rfd = SharedFd::new(r);
                 let out = out2.clone();
                 // all token-route tasks of a run share ONE token: firing it must cancel every one of them
-                let token = if *k == Kind::Token { Some(shared_token.clone()) } else { None };
+                let token = match *k {
+                    Kind::Token => Some(shared_token.clone()),
+                    Kind::Multi => Some(CancelToken::new()),
+                    _ => None,
+                };
                 tokens.push(token.clone());
                 let k = *k;
+                let paths = paths.clone();
+                let accepted = accepted.clone();
+                let paths_main = paths.clone();
+                let _ = &paths_main;
                 let h = compio_runtime::spawn(async move {
                     rec::push("h.task_submit", i as u64, 0);
                     let res: Option<(std::io::Result<usize>, Vec<u8>)> = match k {
@@ -125,6 +139,46 @@ fn run_one(run: u64, rng: &mut StdRng, rep: &mut Report, trace_out: &mut Vec<Str
                                 Err(_elapsed) => None,
                             }
                         }
+                        Kind::Multi => {
+                            let path = std::env::temp_dir().join(format!("verif_rt_{}_{}_{}.sock", std::process::id(), run, i));
+                            let _ = std::fs::remove_file(&path);
+                            let l = std::os::unix::net::UnixListener::bind(&path).expect("bind");
+                            l.set_nonblocking(true).unwrap();
+                            paths.borrow_mut()[i] = Some(path);
+                            let lfd = SharedFd::new(l);
+                            let st = compio_runtime::submit_multi(AcceptMulti::new(lfd.clone())).with_cancel(token.clone().unwrap());
+                            let mut st = std::pin::pin!(st);
+                            let mut got = 0usize;
+                            let mut last: std::io::Result<usize> = Ok(0);
+                            // a descriptor delivered by a MORE item belongs to the caller; the one of the final item
+                            // belongs to the operation: close item N only when item N+1 shows that N was not final
+                            let mut prev_fd: Option<i32> = None;
+                            while let Some(BufResult(r, _extra)) = st.next().await {
+                                if let Some(fd) = prev_fd.take() {
+                                    unsafe { libc::close(fd) };
+                                }
+                                match r {
+                                    Ok(fd) => {
+                                        got += 1;
+                                        prev_fd = Some(fd as i32);
+                                    }
+                                    Err(e) => last = Err(e),
+                                }
+                            }
+                            // connections the stream did not yield must still be waiting in the listener's backlog
+                            let mut remaining = 0usize;
+                            loop {
+                                let fd = unsafe { libc::accept4(std::os::fd::AsRawFd::as_raw_fd(&lfd), std::ptr::null_mut(), std::ptr::null_mut(), libc::SOCK_NONBLOCK | libc::SOCK_CLOEXEC) };
+                                if fd < 0 {
+                                    break;
+                                }
+                                remaining += 1;
+                                unsafe { libc::close(fd) };
+                            }
+                            got += remaining * 100;
+                            accepted.borrow_mut()[i] = got;
+                            Some((last, vec![]))
+                        }
                         _ => {
                             let fut = compio_runtime::submit(Read::new(rfd, TBuf::with_capacity(i as u64 + 1, 8)));
                             let BufResult(r, op) = match token {
@@ -140,7 +194,7 @@ fn run_one(run: u64, rng: &mut StdRng, rep: &mut Report, trace_out: &mut Vec<Str
                             Some((r, data))
                         }
                     };
-                    let got_buffer_back = res.is_some();
+                    let got_buffer_back = res.is_some() && k != Kind::Multi;
                     let mut o = out.borrow_mut();
                     o[i].done = true;
                     match (k, res) {
@@ -149,6 +203,13 @@ fn run_one(run: u64, rng: &mut StdRng, rep: &mut Report, trace_out: &mut Vec<Str
                             o[i].note = format!("read {nn} bytes {data:?}");
                         }
                         (Kind::Blocking, Some((Ok(77), _))) => o[i].ok = true,
+                        (Kind::Multi, Some((last, _))) => {
+                            let got = accepted.borrow()[i];
+                            let cancelled = matches!(&last, Err(e) if e.raw_os_error() == Some(libc::ECANCELED));
+                            let (yielded, remaining) = (got % 100, got / 100);
+                            o[i].ok = yielded + remaining == 2 && (cancelled || last.is_ok());
+                            o[i].note = format!("multishot accept stream yielded {yielded} connections, {remaining} left in the backlog, 2 were made; end: {:?}", last.map_err(|e| e.to_string()));
+                        }
                         (Kind::Timeout, None) => o[i].ok = true,
                         (Kind::Token, Some((Err(e), _))) => {
                             o[i].ok = e.raw_os_error() == Some(libc::ECANCELED);
@@ -186,6 +247,21 @@ fn run_one(run: u64, rng: &mut StdRng, rep: &mut Report, trace_out: &mut Vec<Str
                     Kind::Dropped => {
                         drop(handles[i].take());
                     }
+                    Kind::Multi => {
+                        // two connections in a burst and the cancellation, with no poll of the runtime in between:
+                        // the driver sees both multishot completions and the final one in a single batch
+                        let p = paths.borrow()[i].clone();
+                        if let Some(p) = p {
+                            for _ in 0..2 {
+                                if let Ok(c) = std::os::unix::net::UnixStream::connect(&p) {
+                                    clients.push(c);
+                                }
+                            }
+                        }
+                        if let Some(t) = tokens[i].take() {
+                            t.cancel();
+                        }
+                    }
                     _ => {}
                 }
                 compio_runtime::time::sleep(Duration::from_millis(1)).await;
@@ -205,6 +281,10 @@ fn run_one(run: u64, rng: &mut StdRng, rep: &mut Report, trace_out: &mut Vec<Str
             for h in handles.into_iter().flatten() {
                 h.detach();
             }
+            for p in paths.borrow().iter().flatten() {
+                let _ = std::fs::remove_file(p);
+            }
+            drop(clients);
             // the main future returns with operations still in flight: the runtime is dropped next
         });
         rec::push("h.hdrvdrop", 0, 0);
@@ -231,7 +311,7 @@ fn run_one(run: u64, rng: &mut StdRng, rep: &mut Report, trace_out: &mut Vec<Str
         let must = !matches!(o.kind, Kind::Dropped | Kind::InFlight);
         if must && !o.done {
             let (prop_kind, what) = match o.kind {
-                Kind::Timeout | Kind::Token => ("cancel", "cancelled-op-never-completes"),
+                Kind::Timeout | Kind::Token | Kind::Multi => ("cancel", "cancelled-op-never-completes"),
                 _ => ("deliver", "finished-op-never-delivered"),
             };
             rep.problem(
@@ -278,7 +358,18 @@ fn run_one(run: u64, rng: &mut StdRng, rep: &mut Report, trace_out: &mut Vec<Str
                 ptr2op.insert(e.a, name.clone());
                 ("alloc", Some(name), 0)
             }
-            "op.free" => ("free", opname(e.a, &ptr2op), 0),
+            "op.free" => {
+                let n = opname(e.a, &ptr2op);
+                if let Some(name) = &n {
+                    let idx: usize = name.trim_start_matches('o').parse::<usize>().unwrap_or(0);
+                    if idx >= 1 && idx <= kinds.len() && kinds[idx - 1] == Kind::Multi && !name.starts_with('x') {
+                        trace_out.push(json!({"ev": "free", "op": name, "a": 0, "fd": 0}).to_string());
+                        trace_out.push(json!({"ev": "hbufdrop", "op": name, "a": 0, "fd": 0}).to_string());
+                        continue;
+                    }
+                }
+                ("free", n, 0)
+            }
             "op.result" => ("result", opname(e.a, &ptr2op), 0),
             "op.cancelled" => ("cancelled", opname(e.a, &ptr2op), e.b),
             "iour.submit" => ("submit", opname(e.a, &ptr2op), 0),
